@@ -205,6 +205,20 @@ func c20Message(id int, seed int64) (*entities.Message, [][2]string) {
 							w[j] = 'x'
 						}
 					}
+					// ... but every Unicode text is fair: control characters, quotes and backslashes,
+					// characters of 2, 3 and 4 bytes (all of which JSON can carry, escaped or not)
+					if sp.Len == entities.VariableLength && len(w) > 0 && r.IntN(3) == 0 {
+						specials := []string{"\x00", "\x07", "\x0b", "\x1b", "\x7f", "\"", "\\", "\n", "\t", "é", "日", "😀", "\u2028"}
+						var nw []byte
+						for j := range w {
+							if r.IntN(4) == 0 {
+								nw = append(nw, specials[r.IntN(len(specials))]...)
+							} else {
+								nw = append(nw, w[j])
+							}
+						}
+						w = nw
+					}
 				}
 				el := mkElement(sp, e, w)
 				els = append(els, el)
